@@ -314,12 +314,19 @@ MC_HARNESS(pinvoke) {
 //          is popped when a later body starts at the same or a shallower stack position. It also sees nesting
 //          through *completion* paths (the previous body has returned, its dispenso caller has not). Bodies
 //          reached through call paths of different depth can add a small constant, never something growing with n.
-// The body runs the program for n0 (default 64) and then for n, with fresh pools, and compares.
+// One program of size n per execution (destroying one pool and building the next inside one execution makes the
+// engine's location naming depend on heap reuse). The comparison "depth(n) == depth(64)" is made inside the run:
+// the bodies of the first n0 (=64) chain links / items / nodes form the baseline; no body with a larger index may see
+// more live task frames (or open bodies) than the baseline maximum (checked at the end, when the baseline is complete,
+// and immediately against the ceiling). The run also reports lvl=<max> as a cover name so that the spec can
+// compare the maxima of runs with different n.
 namespace dep {
 constexpr int kCeil = 4 * dispenso::detail::kMaxInlineDepth;
 constexpr int kSpCap = 1024;
 struct Meter {
   mc::Shared<int> max_open{0}, max_lvl{0}, done{0};
+  mc::Shared<int> started{0}, pre_open{0}, pre_lvl{0}, post_open{0}, post_lvl{0};
+  int n0 = 0, tol = 0;
 };
 Meter* g_m = nullptr;
 thread_local int tl_open = 0;
@@ -328,13 +335,21 @@ thread_local uintptr_t tl_sp[kSpCap];
 mc::Shared<int> g_n{0};
 
 struct Probe {
-  __attribute__((noinline)) Probe() {
+  __attribute__((noinline)) explicit Probe(int index) {
     uintptr_t sp = (uintptr_t)__builtin_frame_address(0);
     while (tl_nsp > 0 && tl_sp[tl_nsp - 1] <= sp) --tl_nsp;
     if (tl_nsp < kSpCap) tl_sp[tl_nsp++] = sp;
     int open = ++tl_open;
+    g_m->started.add(1);
     g_m->max_open.max_with(open);
     g_m->max_lvl.max_with(tl_nsp);
+    if (index < g_m->n0) {
+      g_m->pre_open.max_with(open);
+      g_m->pre_lvl.max_with(tl_nsp);
+    } else {
+      g_m->post_open.max_with(open);
+      g_m->post_lvl.max_with(tl_nsp);
+    }
     if (open > 1) mc::cover("body_inside_body");
     if (tl_nsp > open) mc::cover("body_inside_completion_path");
     // stop before the real stack overflows
@@ -368,7 +383,7 @@ struct ChainTask {
   void operator()() {
     if (k == 0) mc::block_until([this] { return c->go.get() != 0; }); // T0 has left schedule(); harness gate, not a dispenso wait
     {
-      Probe p;
+      Probe p(k);
       if (k + 1 < c->n) c->target->schedule(ChainTask{c, k + 1});
     }
     c->m->done.add(1);
@@ -420,10 +435,10 @@ template <class Sched>
 void run_then(dispenso::ThreadPool& pool, Sched& sched, bool ready, int rel, int n, Meter& m) {
   Hold hold;
   auto body = [&m](dispenso::Future<int>&& x) {
-    int v;
+    int v = x.get(); // the antecedent is ready: its value is this link's index
     {
-      Probe p;
-      v = x.get() + 1;
+      Probe p(v);
+      v = v + 1;
     }
     m.done.add(1);
     return v;
@@ -454,17 +469,16 @@ void run_pipe(dispenso::ThreadPool& pool, int n, Meter& m) {
   dispenso::pipeline(
       pool,
       [&]() -> dispenso::OpResult<int> {
-        Probe p;
+        Probe p(produced);
         if (produced == n) return {};
         return produced++;
       },
       [&](int v) {
-        Probe p;
-        return v + 1;
+        Probe p(v);
+        return v;
       },
       [&](int v) {
-        Probe p;
-        (void)v;
+        Probe p(v);
         sunk.add(1);
       });
   MC_CHECK(sunk.get() == n, "pipeline delivered %d of %d items", sunk.get(), n);
@@ -476,13 +490,13 @@ void run_graph(dispenso::ThreadPool& pool, const std::string& exec, bool comb, i
   dispenso::Graph g;
   std::vector<dispenso::Node*> forks((size_t)n), leaves((size_t)n);
   for (int i = 0; i < n; i++) {
-    forks[(size_t)i] = &g.addNode([&m] {
-      { Probe p; }
+    forks[(size_t)i] = &g.addNode([&m, i] {
+      { Probe p(i); }
       m.done.add(1);
     });
     if (comb)
-      leaves[(size_t)i] = &g.addNode([&m] {
-        { Probe p; }
+      leaves[(size_t)i] = &g.addNode([&m, i] {
+        { Probe p(i); }
         m.done.add(1);
       });
   }
@@ -557,21 +571,31 @@ MC_HARNESS(depth) {
   c.lf = (int)P("lf", 30);
   c.prog = P.s("prog", "sched_pool");
   c.sched = P.s("sched", "p");
-  int n = (int)P("n", 8), n0 = (int)P("n0", 0), tol = (int)P("tol", 0);
-  Meter m0, m1;
-  if (n0 > 0) run_prog(c, n0, m0);
+  int n = (int)P("n", 8);
+  Meter m1;
+  m1.n0 = (int)P("n0", 0);
+  m1.tol = (int)P("tol", 0);
   run_prog(c, n, m1);
   g_m = nullptr;
   if (P("show", 0))
-    fprintf(stderr, "DEPTH prog=%s N=%d n0=%d: lvl %d open %d | n=%d: lvl %d open %d\n", c.prog.c_str(), c.N, n0, m0.max_lvl.get(), m0.max_open.get(), n,
-            m1.max_lvl.get(), m1.max_open.get());
-  if (n0 > 0 && n > n0) {
-    MC_CHECK(m1.max_lvl.get() <= m0.max_lvl.get() + tol,
-             "inline nesting depth grows with the program size: %d live task frames on one thread at n=%d, %d at n=%d (bodies open: %d vs %d)",
-             m1.max_lvl.get(), n, m0.max_lvl.get(), n0, m1.max_open.get(), m0.max_open.get());
-    MC_CHECK(m1.max_open.get() <= m0.max_open.get() + tol, "number of task bodies open on one thread grows with the program size: %d at n=%d, %d at n=%d",
-             m1.max_open.get(), n, m0.max_open.get(), n0);
-    if (m1.max_lvl.get() == m0.max_lvl.get()) mc::cover("depth_equal_to_baseline");
+    fprintf(stderr, "DEPTH prog=%s N=%d n=%d: lvl %d open %d | index < %d: lvl %d open %d | bodies %d\n", c.prog.c_str(), c.N, n, m1.max_lvl.get(), m1.max_open.get(),
+            m1.n0, m1.pre_lvl.get(), m1.pre_open.get(), m1.started.get());
+  if (m1.n0 > 0 && n > m1.n0) {
+    mc::cover("compared_against_baseline");
+    MC_CHECK(m1.post_lvl.get() <= m1.pre_lvl.get() + m1.tol,
+             "inline nesting depth grows with the program size (n=%d): a body with index >= %d started with %d live task frames on its thread, the bodies with index < %d never saw more than %d (bodies open: %d vs %d)",
+             n, m1.n0, m1.post_lvl.get(), m1.n0, m1.pre_lvl.get(), m1.post_open.get(), m1.pre_open.get());
+    MC_CHECK(m1.post_open.get() <= m1.pre_open.get() + m1.tol,
+             "number of task bodies open on one thread grows with the program size (n=%d): %d open for an index >= %d, never more than %d for the indices below", n,
+             m1.post_open.get(), m1.n0, m1.pre_open.get());
+    if (m1.max_lvl.get() == m1.pre_lvl.get()) mc::cover("depth_equal_to_baseline");
+  }
+  {
+    char name[48];
+    snprintf(name, sizeof name, "lvl=%d", m1.max_lvl.get());
+    mc::cover(name);
+    snprintf(name, sizeof name, "open=%d", m1.max_open.get());
+    mc::cover(name);
   }
   if (m1.max_lvl.get() >= dispenso::detail::kMaxInlineDepth) mc::cover("depth_guard_saturated");
   if (m1.max_lvl.get() > 1) mc::cover("nested_inline_execution");
